@@ -125,6 +125,29 @@ impl TranscriptProtocol for Transcript {
         let mut buf = [0u8; 64];
         self.challenge_bytes(label, &mut buf);
 
-        Scalar::from_bytes_mod_order_wide(&buf)
+        let challenge = Scalar::from_bytes_mod_order_wide(&buf);
+        #[cfg(feature = "verif-hooks")]
+        verif_hooks::record(label, &challenge);
+        challenge
+    }
+}
+
+/// Verification instrumentation (feature `verif-hooks`, off by default): a per-thread log of the
+/// labels and values of all challenges drawn so far.
+#[cfg(feature = "verif-hooks")]
+pub mod verif_hooks {
+    use {curve25519_dalek::scalar::Scalar, std::cell::RefCell};
+
+    thread_local! {
+        static CHALLENGES: RefCell<Vec<(Vec<u8>, [u8; 32])>> = const { RefCell::new(Vec::new()) };
+    }
+
+    pub(super) fn record(label: &[u8], challenge: &Scalar) {
+        CHALLENGES.with(|log| log.borrow_mut().push((label.to_vec(), challenge.to_bytes())));
+    }
+
+    /// Returns and clears the challenges recorded on this thread.
+    pub fn take() -> Vec<(Vec<u8>, [u8; 32])> {
+        CHALLENGES.with(|log| std::mem::take(&mut *log.borrow_mut()))
     }
 }
